@@ -12,9 +12,9 @@ def run(res, pool, tier, seed):
     sd = seed % 1000
     if tier == "quick":
         jobs = [dict(module="MC_FlatBody.tla", tag="catalogue", invariants=INVS, timeout=1200,
-                     constants=dict(GENK=set(), NGEN=1, S=2, BODIES=set(POLYH + POLYG), KF=set(FLAT), SEED=sd, NSHARD=60, NXCHECK=8)),
+                     constants=dict(GENK=set(), NGEN=1, S=2, BODIES=set(POLYH + POLYG), KF=set(FLAT), SEED=sd, NSHARD=110, NXCHECK=8)),
                 dict(module="MC_FlatBody.tla", tag="general-hulls", invariants=INVS, timeout=1200,
-                     constants=dict(GENK={5}, NGEN=16000, S=2, BODIES=set(), KF=set(FLAT), SEED=sd, NSHARD=90, NXCHECK=8))]
+                     constants=dict(GENK={5}, NGEN=16000, S=2, BODIES=set(), KF=set(FLAT), SEED=sd, NSHARD=160, NXCHECK=8))]
     else:
         jobs = [dict(module="MC_FlatBody.tla", tag="catalogue", invariants=INVS, timeout=7200,
                      constants=dict(GENK=set(), NGEN=1, S=2, BODIES=set(POLYH + POLYG), KF=set(FLAT), SEED=sd, NSHARD=4, NXCHECK=16)),
